@@ -986,7 +986,7 @@ func encodeIdent(name string) string {
 // https://developer.mozilla.org/en-US/docs/Glossary/Identifier.
 func formatJSStructTagVal(jsTag string) string {
 	for i, r := range jsTag {
-		ok := unicode.IsLetter(r) || (i != 0 && unicode.IsNumber(r)) || r == '$' || r == '_'
+		ok := unicode.IsLetter(r) || (i != 0 && unicode.IsDigit(r)) || r == '$' || r == '_'
 		if !ok {
 			// Saw an invalid JavaScript identifier character,
 			// so use bracket notation.
